@@ -224,6 +224,12 @@ func (in *inst) state(s *side) string {
 }
 
 func (in *inst) step(c *vt.Ctx, st Step) *vt.Deviation {
+	if st.On >= len(in.sides) {
+		// (only the deterministic cases address a view before knowing that it exists)
+		d := vt.Dev("prop", "C11", "on", "view", "op", "sub", "clause", "outcome")
+		d.Detail = fmt.Sprintf("step %s%s addresses view %d, which does not exist: the Sub call that the parent's twin accepts was refused", st.Set, st.Op, st.On)
+		return d
+	}
 	s := in.sides[st.On]
 	c.Eval(1)
 	mk := func(clause, detail string) *vt.Deviation {
@@ -259,7 +265,12 @@ func (in *inst) step(c *vt.Ctx, st Step) *vt.Deviation {
 		if len(in.sides) >= 5 {
 			return nil
 		}
-		if !in.viewable(path.Join("/", s.dir, st.Op.P)) {
+		// (a relative directory is taken from the receiver's working directory)
+		inRecv := st.Op.P
+		if !strings.HasPrefix(inRecv, "/") {
+			inRecv = path.Join("/", s.cwd, inRecv)
+		}
+		if !in.viewable(path.Join("/", s.dir, inRecv)) {
 			// the permission bits of a view's directory and of its ancestors are not traversed
 			// through the view (as for a chroot): the comparison needs them to let everybody pass
 			c.Label("sub-skipped:permissions-on-the-way")
@@ -276,7 +287,7 @@ func (in *inst) step(c *vt.Ctx, st Step) *vt.Deviation {
 		if err != nil {
 			return nil
 		}
-		abs := path.Join("/", s.dir, st.Op.P)
+		abs := path.Join("/", s.dir, inRecv)
 		if abs == "/" {
 			abs = ""
 		}
@@ -549,6 +560,21 @@ func TestCheck(t *testing.T) {
 		}
 		c.Extra("view_root_permissions", fmt.Sprintf("%d cases over 2 owners x 10 modes of the view's directory x 3 users x %d calls", n, len(ops)))
 	}
+	// a view of a relative directory is rooted below the receiver's working directory
+	if c.Shard == 0 {
+		for _, tc := range []struct {
+			on       int
+			cd, sub  string
+			existing string
+		}{{0, "/w/d", "e", "/f"}, {0, "/w", "d/a", "/b"}, {1, "/e", ".", "/f"}, {1, "/a", "..", "/a/b"}, {1, "/", "e", "/f"}, {0, "/w/d/e", "..", "/a/b"}} {
+			cs := Case{Views: []string{"/w/d"}, Prefix: prefix, Steps: []Step{{On: tc.on, Op: fsx.Op{K: "Chdir", P: tc.cd}}, {On: tc.on, Set: "sub", Op: fsx.Op{P: tc.sub}},
+				{On: 2, Op: fsx.Op{K: "ReadFile", P: tc.existing}}, {On: 2, Op: fsx.Op{K: "WriteFile", P: "/new", Data: "n", Perm: 0o644}}, {On: 2, Op: fsx.Op{K: "ReadDir", P: "/"}}}}
+			c.NonTrivial(vt.Hash64("relative-sub", fmt.Sprint(tc)))
+			if dev := run(c, cs); dev != nil {
+				c.Report(dev, cs)
+			}
+		}
+	}
 	c.Rapid("hist", c.Pick(2500, 60000), func(t *rapid.T) *vt.Failure {
 		cs := Case{Views: rapid.SampledFrom(viewSets).Draw(t, "views"), Prefix: prefix}
 		in, err := newInst(cs)
@@ -571,6 +597,7 @@ func TestCheck(t *testing.T) {
 				if in.sides[on].dir == "/w" {
 					dirs = []string{"/d", "/d/e", "/"}
 				}
+				dirs = append(dirs, "a", "e", "d", ".", "..", "d/e")
 				steps = []Step{{On: on, Set: "sub", Op: fsx.Op{P: rapid.SampledFrom(dirs).Draw(t, "sub-dir")}, Val: rapid.IntRange(0, 1).Draw(t, "sub-first")}}
 			case 0:
 				steps = []Step{{On: on, Set: "umask", Val: rapid.SampledFrom([]int{0, 0o022, 0o077, 0o027}).Draw(t, "umask")}}
